@@ -21,10 +21,13 @@ def cfgs_mc(prop, tier):
             c['D'], c['lmin'], c['lmax'], c['version'], c['rebalancing'], c['boundary'], c['sfn'], c['sfd'], c['steps'], c['maxsel'])
         if c.get('margin') is not None:
             c['name'] += ' margin=%s' % c['margin']
+        if c.get('seldims'):
+            c['name'] += ' seldims=%s' % c['seldims']
         L.append(c)
     if prop == 'C06':
         add(rebalancing=True, maxsel=2)
-        add(rebalancing=True, sfn=0, sfd=1, steps=3)
+        add(rebalancing=True, sfn=0, sfd=1, steps=(2 if tier == 'quick' else 3))
+        add(rebalancing=True, sfn=0, sfd=1, steps=2, maxsel=3, seldims=[1], maxedges=800)
         add(rebalancing=False, maxsel=2, margin=0.5)
         if tier == 'thorough':
             add(rebalancing=True, steps=3, maxsel=2)
@@ -71,7 +74,7 @@ def cfgs_random(prop, tier, rng):
                  sfn=rng.choice([1, 1, 0, 3]) if prop == 'C06' else 1, sfd=10, maxintervals=40 if D == 2 else 24,
                  max_hats=(24 if tier == 'quick' else 80) if prop == 'C04' else 6)
         if prop == 'C06':
-            c['margin'] = rng.choice([None, None, 0.5, 1.0, 0.75, 0.25, 0.0, 0.1])
+            c['margin'] = [0.0, 1.0, 0.0, 0.1][i] if i < 4 else rng.choice([None, None, 0.5, 1.0, 0.75, 0.25, 0.0, 0.1])
         if rng.random() < 0.3:
             c['a'] = [-3.0 + d for d in range(D)]
             c['b'] = [6.0 + 2 * d for d in range(D)]
@@ -121,7 +124,7 @@ def run_prop(prop, tier, seed, finish=True):
             raise tlc.TLCError('specification DimWise violates %s for %s (model-level; to be replayed on the code before it means anything)' % (r.violated, c['name']))
         if r.action_counts.get('Next', (0, 0))[1] == 0 or r.distinct < 2:
             raise tlc.TLCError('vacuous run: RefineStep never taken for ' + c['name'])
-        nedges, mism, unreached = P.edge_replay(rep, g, c, traces, maxedges=(150 if tier == 'quick' else 3000), rng=rng)
+        nedges, mism, unreached = P.edge_replay(rep, g, c, traces, maxedges=c.get('maxedges', 150 if tier == 'quick' else 1500), rng=rng)
         tm['edge_replay'] += time.time() - t0
         rep.cov['tlc_runs'][-1].update({'edges_replayed_on_impl': nedges, 'edge_mismatches': mism, 'spec_states_not_materialised': unreached})
     t0 = time.time()
